@@ -60,6 +60,7 @@ RULES = [
  (r"^C03\|field-not-reproduced\|(36)$", "RC-TRAIL", None),
  (r"^C03\|field-not-reproduced\|(5[2-57]B)$", "RC-OPTB", None),
  (r"^C08\|msg\|MT\d+\|publish-differs\|(5[2-57]B)$", "RC-OPTB", r"C08|msg|*|publish-differs|\1"),
+ (r"^C08\|msg\|MT\d+\|publish-rejected\|empty-serialised:(5[2-57]B)$", "RC-OPTB", r"C08|msg|*|publish-rejected|empty-serialised:\1"),
  (r"^C16\|tokenise\|position-stamps-collide\|over-65536-fields$", "RC-POS16", None),
  (r"^C05\|Field\w+\|over-accept\|blank-line$", "RC-LINES", None),
  (r"^C05\|Field\w+\|over-accept\|(control-char|nonascii)$", "RC-XCHARS", None),
@@ -106,6 +107,10 @@ def main():
         e0 = findings[optb[0]]
         for t in ("52B", "53B", "54B", "55B", "57B"):
             k = f"C08|msg|*|publish-differs|{t}"
+            findings.setdefault(k, dict(e0, signature=k))
+            # the same situation where the slot is mandatory (e.g. 57a of MT200): publish_mt cannot place the
+            # dropped field and rejects the JSON instead of writing a different text
+            k = f"C08|msg|*|publish-rejected|empty-serialised:{t}"
             findings.setdefault(k, dict(e0, signature=k))
     path = "/verif/known_findings.json"
     old = json.load(open(path)) if os.path.exists(path) else {}
